@@ -14,7 +14,7 @@ from lib.coqterm import cbytes, cbool, cN, clist, copt, hx, unhx
 
 ID = "C48"
 QUICK_N = 900
-THOROUGH_N = 8000
+THOROUGH_N = 10000
 SHARD = 200
 RULE = ("55% requests built from per-field token dictionaries (shell metacharacters, quotes, command substitutions, "
         "control characters, percent/backslash, leading dash/at-sign, high and invalid UTF-8 bytes in method, scheme, host, "
@@ -264,7 +264,7 @@ def _dq_body(rng, allow_subst):
         elif r < 0.6:
             out += b"\\" + rng.choice([b"$", b"`", b'"', b"\\"])
         elif r < 0.7:
-            out += b"\\" + rng.choice([b"a", b"n", b"'", b" ", b"x", b"(", b"\x7f", b"\x02"])
+            out += b"\\" + rng.choice([b"a", b"n", b"'", b" ", b"x", b"(", b"\x03", b"\x02", b"\xff"])
         elif allow_subst:
             fmt = b"".join(rng.choice(FMT_OK) for _ in range(rng.randint(0, 5)))
             while fmt.startswith(b"-"):
@@ -292,7 +292,7 @@ def _word_ok(rng):
 
 
 SH_MUT = [b";", b"|", b"&", b"$x", b"`", b"(", b")", b"<", b">", b"*", b"~", b"#", b"{a,b}", b"\n", b"$(", b'"', b"'", b"\\", b"$(pwned)",
-          b";pwned", b"<<<", b" <<< ", b"\"\\\x01$(printf a)\"", b"\\%", b"\\\n", b"$((1))", b"!", b"[", b"?", b"printf", b"%c", b"\\u00e9", b"-", b"a=b "]
+          b";pwned", b"<<<", b" <<< ", b"\"\\\x01$(printf a)\"", b"\\%", b"<<<\"\\\x7f\"", b"\"\\\x7f\"", b"\\\n", b"$((1))", b"!", b"[", b"?", b"printf", b"%c", b"\\u00e9", b"-", b"a=b "]
 
 
 def gen_sh(rng):
